@@ -1090,3 +1090,115 @@ Proof. vm_compute. split; reflexivity. Qed.
 Lemma empty_and_bracket_names_accepted :
   conv_name (GStr "") = Ok "" /\ conv_name (GStr "a[b") = Ok "a[b" /\ conv_name (GStr "a]b") = Ok "a]b".
 Proof. vm_compute. repeat split. Qed.
+
+(* ====================================== listener pools: listed types -> deliveries *)
+Require Import SV.C09.Gen_EvTypes SV.C09.EvTypes SV.C09.EvTypesProofs SV.C14.Subscribe.
+
+Lemma mem_et_In t l : mem_et t l = true <-> In t l.
+Proof.
+  unfold mem_et. rewrite existsb_exists. split.
+  - intros (x & Hx & E). apply etype_eqb_eq in E. subst; auto.
+  - intro H. exists t. split; auto. apply etype_eqb_refl.
+Qed.
+
+Lemma NoDup_snoc_et (l : list etype) x : NoDup l -> ~ In x l -> NoDup (l ++ [x]).
+Proof.
+  induction l as [|a l IH]; simpl; intros N H; [repeat constructor; auto|].
+  inversion N; subst. constructor.
+  - rewrite in_app_iff. simpl. intros [K|[K|[]]]; auto.
+  - apply IH; auto.
+Qed.
+
+Lemma sub_types_from_spec subs : forall todo acc, NoDup acc ->
+  NoDup (sub_types_from todo acc subs) /\
+  forall x, In x (sub_types_from todo acc subs) <-> In x acc \/ (In x todo /\ has_other_super x subs = false).
+Proof.
+  induction todo as [|t r IH]; intros acc ND; simpl.
+  - split; [exact ND|]. intros x. tauto.
+  - destruct (mem_et t acc) eqn:M.
+    + destruct (IH acc ND) as [N1 S1]. split; [exact N1|]. intros x. rewrite S1.
+      apply mem_et_In in M. split; [tauto|]. intros [H|[[H|H] K]]; auto. subst. auto.
+    + destruct (has_other_super t subs) eqn:O.
+      * destruct (IH acc ND) as [N1 S1]. split; [exact N1|]. intros x. rewrite S1.
+        split; [tauto|]. intros [H|[[H|H] K]]; auto. subst. congruence.
+      * assert (ND' : NoDup (acc ++ [t])).
+        { apply NoDup_snoc_et; [exact ND|]. intros K. apply mem_et_In in K. congruence. }
+        destruct (IH (acc ++ [t])%list ND') as [N1 S1]. split; [exact N1|]. intros x. rewrite S1.
+        rewrite in_app_iff. simpl. split.
+        -- intros [[H|[H|[]]]|[H K]]; auto. subst. right. auto.
+        -- intros [H|[[H|H] K]]; auto.
+Qed.
+
+Lemma subscription_types_spec subs :
+  NoDup (subscription_types subs) /\
+  forall x, In x (subscription_types subs) <-> In x subs /\ has_other_super x subs = false.
+Proof.
+  destruct (sub_types_from_spec subs subs [] (NoDup_nil _)) as [N S]. split; [exact N|].
+  intros x. unfold subscription_types. rewrite S. simpl. tauto.
+Qed.
+
+Lemma subscription_covers subs t : forall n T,
+  (depth T <= n)%nat -> In T subs -> subtype_b t T = true ->
+  exists T', In T' (subscription_types subs) /\ subtype_b t T' = true.
+Proof.
+  induction n as [|n IH]; intros T D I S.
+  - destruct (has_other_super T subs) eqn:O.
+    + unfold has_other_super in O. apply existsb_exists in O. destruct O as [U [IU HU]].
+      apply andb_true_iff in HU. destruct HU as [NE SU]. apply negb_true_iff in NE.
+      pose proof (depth_lt T U SU NE). lia.
+    + exists T. split; [|exact S]. apply subscription_types_spec. auto.
+  - destruct (has_other_super T subs) eqn:O.
+    + unfold has_other_super in O. apply existsb_exists in O. destruct O as [U [IU HU]].
+      apply andb_true_iff in HU. destruct HU as [NE SU]. apply negb_true_iff in NE.
+      pose proof (depth_lt T U SU NE). apply (IH U); [lia | exact IU | eapply subtype_b_trans; eassumption].
+    + exists T. split; [|exact S]. apply subscription_types_spec. auto.
+Qed.
+
+(* ---- one notification of class t reaches the pool exactly once iff t or one
+   of its superclasses is listed - whatever duplicates, orders or
+   type/supertype pairs the events= line has *)
+Theorem subscription_routing subs t :
+  deliveries subs t = if existsb (fun T => subtype_b t T) subs then 1%Z else 0%Z.
+Proof.
+  unfold deliveries. destruct (subscription_types_spec subs) as [N S].
+  set (F := filter (fun T => subtype_b t T) (subscription_types subs)).
+  assert (Huniq : forall x y, In x F -> In y F -> x = y).
+  { intros x y Hx Hy. apply filter_In in Hx. apply filter_In in Hy.
+    destruct Hx as [Ix Sx]. destruct Hy as [Iy Sy].
+    apply S in Ix. apply S in Iy. destruct Ix as [Ix Ox]. destruct Iy as [Iy Oy].
+    destruct (etype_eqb x y) eqn:Q; [apply etype_eqb_eq; exact Q|]. exfalso.
+    destruct (subtype_chain t x y Sx Sy) as [C|C].
+    - assert (has_other_super x subs = true); [|congruence].
+      unfold has_other_super. apply existsb_exists. exists y. split; [exact Iy|].
+      rewrite C, andb_true_r. apply negb_true_iff.
+      destruct (etype_eqb y x) eqn:Q'; [|reflexivity]. apply etype_eqb_eq in Q'. subst.
+      rewrite etype_eqb_refl in Q. discriminate.
+    - assert (has_other_super y subs = true); [|congruence].
+      unfold has_other_super. apply existsb_exists. exists x. split; [exact Ix|].
+      rewrite C, andb_true_r. apply negb_true_iff. exact Q. }
+  assert (NF : NoDup F) by (apply NoDup_filter; exact N).
+  destruct (existsb (fun T => subtype_b t T) subs) eqn:E.
+  - apply existsb_exists in E. destruct E as [T [IT ST]].
+    destruct (subscription_covers subs t (depth T) T (le_n _) IT ST) as [T' [I' S']].
+    assert (L2 : In T' F) by (apply filter_In; auto).
+    destruct F as [|a [|b l]]; simpl in *; [tauto | reflexivity |].
+    exfalso. inversion NF as [|? ? NA _]; subst. apply NA. left. symmetry. apply Huniq; simpl; auto.
+  - destruct F as [|a l] eqn:EF; [reflexivity|]. exfalso.
+    assert (I : In a F) by (rewrite EF; left; reflexivity).
+    unfold F in I. apply filter_In in I. destruct I as [I Sa]. apply S in I. destruct I as [I _].
+    assert (existsb (fun T => subtype_b t T) subs = true); [|congruence].
+    apply existsb_exists. exists a. auto.
+Qed.
+
+(* the two generated tables agree: every name the reader accepts (c14 translator:
+   EventTypes attribute names) is a class of C09's generated hierarchy *)
+Lemma event_names_are_classes :
+  forallb (fun n => match class_of_name n with Some _ => true | None => false end) event_type_names = true /\
+  List.length event_type_names = List.length event_types_table.
+Proof. vm_compute. split; reflexivity. Qed.
+
+Example ex_subscription :
+  map (fun t => deliveries (pool_classes "PROCESS_STATE_RUNNING, process_state,TICK_5,TICK_5") t)
+      [T_ProcessStateStoppedEvent; T_ProcessStateRunningEvent; T_ProcessStateEvent; T_Tick5Event; T_Tick60Event; T_Event]
+  = [1; 1; 1; 1; 0; 0]%Z.
+Proof. vm_compute. reflexivity. Qed.
